@@ -880,11 +880,36 @@ class DisplayWrap:
         self.sb = s
 
 
-def format_arguments(I, fa):
+def format_pieces(I, fa):
+    """The successive write_str calls core::fmt::write makes for these arguments: one per literal piece
+    and one per plain Display argument (a String/&str argument is handed over whole)."""
+    if fa.template is None:
+        return [SBytes.of(fa.args)] if fa.args else []
+    whole = format_arguments(I, fa, pieces=True)
+    return [p for p in whole if not (p.is_concrete() and not p.concrete())]
+
+
+def format_arguments(I, fa, pieces=False):
     if fa.template is None:
         return SBytes.of(fa.args)
+    if pieces:
+        out = _PieceList()
+        r = _format_arguments(I, fa, out)
+        return r.items
+    return _format_arguments(I, fa, SBytes())
+
+
+class _PieceList:
+    def __init__(self):
+        self.items = []
+
+    def __add__(self, x):
+        self.items.append(SBytes.of(x))
+        return self
+
+
+def _format_arguments(I, fa, out):
     t = fa.template
-    out = SBytes()
     i = 0
     argi = 0
     while True:
